@@ -315,8 +315,28 @@ Definition view (objs : list Ptr) (p : Ptr) : Prop :=
   p_valid p = false \/ (p_member p = false /\ In (core p) objs) \/ (exists h i, In h objs /\ member_at h i p) \/
   empty_view p \/ cap_view p.
 
+(* handles of another message (the source of cross-message copies): what readPtr hands out for
+   any bytes 0..255 *)
+Definition sview (sm : segs) (p : Ptr) : Prop :=
+  p_valid p = true ->
+  wf_size (p_size p) /\ 0 <= p_seg p < zlen sm /\
+  match p_kind p with
+  | KStruct => True
+  | KList => shape_ok p /\
+             (p_comp p = true -> exists tag, rawStructPointer (p_len p) (p_size p) = Some tag /\
+                                             word_at sm (p_seg p) (p_off p - 8) = Some tag)
+  | KIface => 0 <= p_len p < 4294967296
+  end.
+
+Lemma sview_null sm : sview sm nullPtr.
+Proof. intros X. discriminate X. Qed.
+
+(* the pool: handles of the message under construction are views of the table, handles of the
+   source message are source views *)
 Definition pool_ok (objs : list Ptr) (st : bstate) : Prop :=
-  Forall (fun x => fst x = InDst /\ view objs (snd x)) (st_h st).
+  Forall (fun x => fst x = InDst -> view objs (snd x)) (st_h st).
+Definition spool (st : bstate) : Prop :=
+  msg_ok (w_src (st_w st)) /\ Forall (fun x => fst x = InSrc -> sview (w_src (st_w st)) (snd x)) (st_h st).
 
 (* the table holds cores *)
 Definition cores (objs : list Ptr) : Prop := forall h, In h objs -> core h = h.
@@ -331,12 +351,12 @@ Qed.
 
 Lemma pool_ok_incl objs objs' st : incl objs objs' -> pool_ok objs st -> pool_ok objs' st.
 Proof.
-  intros I P. unfold pool_ok in *. rewrite Forall_forall in *. intros x Hx. destruct (P x Hx) as [A B].
-  split; [exact A|eapply view_incl; eauto].
+  intros I P. unfold pool_ok in *. rewrite Forall_forall in *. intros x Hx El.
+  eapply view_incl; eauto.
 Qed.
 
 Lemma pool_ok_push objs st w p : pool_ok objs st -> view objs p -> pool_ok objs (hpush st w InDst p).
-Proof. intros H Hp. unfold pool_ok, hpush. cbn [st_h]. apply Forall_app. split; [exact H|]. constructor; [split; [reflexivity|exact Hp]|constructor]. Qed.
+Proof. intros H Hp. unfold pool_ok, hpush. cbn [st_h]. apply Forall_app. split; [exact H|]. constructor; [intros _; exact Hp|constructor]. Qed.
 
 Lemma view_null objs : view objs nullPtr.
 Proof. left. reflexivity. Qed.
@@ -344,13 +364,21 @@ Proof. left. reflexivity. Qed.
 Lemma sinv_push_null st objs pads : sinv st objs pads -> sinv (hpush st (st_w st) InDst nullPtr) objs pads.
 Proof. intros (H & P & C). split; [exact H|]. split; [|exact C]. apply pool_ok_push; auto. apply view_null. Qed.
 
-Lemma hget_view st objs pads h : sinv st objs pads -> view objs (snd (hget st h)) /\ (p_valid (snd (hget st h)) = true -> fst (hget st h) = InDst).
+Lemma hget_view st objs pads h : sinv st objs pads -> fst (hget st h) = InDst -> view objs (snd (hget st h)).
 Proof.
   intros (_ & P & _). unfold hget.
   destruct (Nat.lt_ge_cases (Z.to_nat h) (length (st_h st))) as [L|G].
   - pose proof (nth_In (st_h st) (InDst, nullPtr) L) as Hin.
-    unfold pool_ok in P. rewrite Forall_forall in P. destruct (P _ Hin) as [P1 P2]. auto.
-  - rewrite nth_overflow by lia. split; [apply view_null|reflexivity].
+    unfold pool_ok in P. rewrite Forall_forall in P. apply (P _ Hin).
+  - rewrite nth_overflow by lia. intros _. apply view_null.
+Qed.
+
+Lemma hget_sview st h : spool st -> fst (hget st h) = InSrc -> sview (w_src (st_w st)) (snd (hget st h)).
+Proof.
+  intros [_ P]. unfold hget.
+  destruct (Nat.lt_ge_cases (Z.to_nat h) (length (st_h st))) as [L|G].
+  - pose proof (nth_In (st_h st) (InDst, nullPtr) L) as Hin. rewrite Forall_forall in P. apply (P _ Hin).
+  - rewrite nth_overflow by lia. discriminate.
 Qed.
 
 (* a valid list handle is a handle of a table object *)
@@ -560,9 +588,8 @@ Definition sub_op (o : bop) : bool :=
   | BSetPtr _ i _ => 0 <=? i
   | BPLSet _ _ _ | BSetStruct _ _ _ | BCopyFrom _ _ => true
   | BSetRoot _ => true
-  | BRead l ORoot => match l with InDst => true | InSrc => false end
   | BRead _ (OSPtr _ i) => 0 <=? i
-  | BRead _ (OLStruct _ _) | BRead _ (OPLAt _ _) => true
+  | BRead _ ORoot | BRead _ (OLStruct _ _) | BRead _ (OPLAt _ _) => true
   | BRead _ o => ro_op o
   | BRoundTrip _ _ _ | BDump _ | BReopen => true
   end.
@@ -643,15 +670,6 @@ Lemma as_list_valid p : p_valid (as_list p) = true -> as_list p = p /\ p_kind p 
 Proof.
   unfold as_list, is_list. destruct (p_valid p && _) eqn:EE; [|discriminate].
   intros _. split; [reflexivity|]. destruct (p_kind p); auto; rewrite Bool.andb_false_r in EE; discriminate.
-Qed.
-
-Lemma hget_dst st objs pads h : sinv st objs pads -> fst (hget st h) = InDst.
-Proof.
-  intros (_ & P & _). unfold hget.
-  destruct (Nat.lt_ge_cases (Z.to_nat h) (length (st_h st))) as [L|G].
-  - pose proof (nth_In (st_h st) (InDst, nullPtr) L) as Hin.
-    unfold pool_ok in P. rewrite Forall_forall in P. apply (P _ Hin).
-  - rewrite nth_overflow by lia. reflexivity.
 Qed.
 
 (* a data write inside the data section of a struct handle *)
@@ -851,7 +869,7 @@ Lemma read_push st objs pads rl1 x : sinv st objs pads -> view objs x ->
 Proof.
   intros S V. destruct (w_set_rl_dst (st_w st) InDst rl1) as (U1 & U2 & _).
   destruct (sinv_same_segs st objs pads _ S U1 U2) as (H2 & P2 & C2). split; [exact H2|]. split; [|exact C2].
-  cbn [st_h]. unfold pool_ok. apply Forall_app. split; [exact P2|]. constructor; [|constructor]. split; [reflexivity|exact V].
+  cbn [st_h]. unfold pool_ok. apply Forall_app. split; [exact P2|]. constructor; [|constructor]. intros _. exact V.
 Qed.
 
 Lemma skipn_push (hs : list (loc * Ptr)) (x : Ptr) : skipn (length hs) (map snd hs ++ [x]) = [x].
